@@ -18,7 +18,9 @@ GRAMMARS = {
     'c18pb': 'grammar c18pb\nstart = Item+\nItem = Word | Num\nWord = /[a-z]+/\nNum = /[0-9]/\n',
     'c18pc': 'grammar c18pc extends c18pb\noverride Word = /[a-z0-9]+/\n',
 }
-REQUIRES = {'c18pc': ['c18pb']}
+GRAMMARS['c18qb'] = 'grammar c18qb\nPair(x) = x >> x\nstart = Pair("a")\nA = Wrap("k")\nB = Wrap("k")\nWrap(x) = "(" >> x << ")"\n'
+GRAMMARS['c18qc'] = 'grammar c18qc extends c18qb\nignore /\\s+/\nTwice = Pair("a")\noverride start = Twice | B\n'
+REQUIRES = {'c18pc': ['c18pb'], 'c18qc': ['c18qb']}
 TEXTS = {
     'arith': ['1+2*3', '1 + ', '-4--5', '2*', '', '7', '1+2+3+4+5*6*7', ' 8 '],
     'classes': ['1ab', '1ab,2b', '1ab,', 'x', '', '1a,2b,3a', '1'],
@@ -30,6 +32,9 @@ TEXTS = {
 SHARED = ['abc123', 'ab1', '1ab', 'abc', '', '12', 'a-b']
 TEXTS['c18pb'] = SHARED
 TEXTS['c18pc'] = SHARED          # the very same text objects go to parent and child
+SHARED2 = ['aa', 'a a', 'a', ' aa', '(k)', '(z)', '( k )', 'a  a', '']
+TEXTS['c18qb'] = SHARED2
+TEXTS['c18qc'] = SHARED2
 
 
 def call_of(rnd, names):
@@ -70,7 +75,7 @@ def do_call(mods, c, edit=False):
         res = e.partial_result
         out = 'partial %s at %r' % (canon(e.partial_result), tuple(e.last_position))
     except g.ParseError as e:
-        out = 'error at %r' % (tuple(e.position),)
+        out = 'error at %r: %s' % (tuple(e.position), str(e)[-120:])
     except Exception as e:                      # noqa
         out = 'exception ' + type(e).__name__
     if ticks is not None:
@@ -108,6 +113,8 @@ def run(R):
             few = ['c18pb', 'c18pc']                 # parent and child, same text objects
         elif h % 4 == 1:
             few = ['ticking', rnd.choice(names)]
+        elif h % 4 == 2:
+            few = ['c18qb', 'c18qc']
         hist = [call_of(rnd, few) for _ in range(rnd.randrange(2, 31))]
         for i, c in enumerate(hist):
             got = do_call(mods, c, edit=True)       # and the caller edits every result it receives
